@@ -487,6 +487,10 @@ type Prog struct {
 	Vars    []string `json:"vars"`    // evaluated after all methods
 	Sites   []Site   `json:"sites"`
 	Comment string   `json:"comment,omitempty"`
+	// Pending: corpus program holding the exact input of a PROPOSED finding (fix or known-finding entry not yet
+	// integrated): its failures are reported only once the site key is listed in known_findings.json, until then they
+	// are counted in the evidence (extra.proposed_finding_reproduced)
+	Pending bool `json:"pending,omitempty"`
 }
 
 func (h *Hier) anyRecursive() bool {
